@@ -299,7 +299,13 @@ func (b *Browser) Do(r Req) *Exchange {
 		ex.Err = "write: " + err.Error()
 		return ex
 	}
-	resp, err := http.ReadResponse(bufio.NewReader(conn), &http.Request{Method: method})
+	br := bufio.NewReader(conn)
+	resp, err := http.ReadResponse(br, &http.Request{Method: method})
+	for err == nil && resp.StatusCode >= 100 && resp.StatusCode < 200 && resp.StatusCode != 101 {
+		// informational responses (103 Early Hints, 100 Continue) precede the final one
+		ex.Interim = append(ex.Interim, resp.Header.Clone())
+		resp, err = http.ReadResponse(br, &http.Request{Method: method})
+	}
 	if err != nil {
 		ex.Err = "read: " + err.Error()
 		return ex
